@@ -318,3 +318,19 @@ Proof.
   destruct (lookup_num (xs_sren (xs_Q d)) k) as [s0|] eqn:E; [| congruence].
   rewrite (J k s0 E j m Hj). split; [reflexivity|]. destruct (xs_Q_inv d) as [_ [_ H3]]. apply H3 in E. lia.
 Qed.
+
+(* ---------- the roots (references printed in the trailer entries) are numbered ---------- *)
+Lemma xq_loop_mono : forall d fuel s y, lookup_num (xs_ren s) y <> None ->
+  lookup_num (xs_ren (xs_q_loop fuel (graph_of d) (xs_P d) s)) y <> None.
+Proof.
+  induction fuel as [|f IH]; intros s y H; [exact H|]. cbn [xs_q_loop].
+  destruct (xs_queue s) as [|it rest]; [exact H|]. apply IH. apply xq_fold_mono. exact H.
+Qed.
+
+Lemma xq_roots_numbered : forall d x, In x (roots_of d) -> 0 < xs_renf d x.
+Proof.
+  intros d x Hx. assert (Hn : lookup_num (xs_ren (xs_Q d)) x <> None).
+  { unfold xs_Q, xs_run_queue. apply xq_loop_mono. apply xq_fold_numbers; [| exact Hx]. intros k s0 H. discriminate. }
+  destruct (xs_Q_inv d) as [_ [H2 _]]. unfold xs_renf.
+  destruct (lookup_num (xs_ren (xs_Q d)) x) eqn:E; [| congruence]. apply H2 in E. lia.
+Qed.
